@@ -111,6 +111,14 @@ func (self *StreamDecoder) Decode(val interface{}) (err error) {
 
 		self.scanned += int64(self.scanp)
 		self.scanp = 0
+	} else if self.err == nil {
+		// the next non-space byte is ']' or '}', which cannot start a value:
+		// report it instead of returning success forever without consuming input
+		self.setErr(SyntaxError{
+			Pos:  self.scanp,
+			Src:  string(self.buf),
+			Code: types.ERR_INVALID_CHAR,
+		})
 	}
 
 	return self.err
